@@ -12,11 +12,14 @@
 //	    flush the two shadow dataplanes must be equal.  Because both graphs see the same sequence,
 //	    this isolates the treatment of invalid values from any other history effect.  In addition a
 //	    fresh graph fed the final state S and one fed S-without-invalid-values must agree.
+//	    Histories contain "profile flap" macro-ops: inside one flush window all local endpoints naming
+//	    profile P go away, P's rules change validity, the endpoints come back.
 //	(2) fail closed: after every post-in-sync flush, for every profile id listed by an emitted local
 //	    endpoint: if the delivered datastore state has no valid ProfileRules for it, the emitted
 //	    ActiveProfileUpdate rules must deny every probe packet in both directions (reference
 //	    evaluator verif/internal/calcgen/denyall.go); if it has, the emitted rules must be the real
-//	    ones (same number of rules, same actions in order), i.e. the deny stand-in was replaced.
+//	    ones (same number of rules, same actions in order), i.e. the deny stand-in was replaced;
+//	    at the end every profile the dataplane holds must equal (proto.Equal) the one a fresh graph emits.
 //
 // Validity tags come from the generator and are verified per case against the repo's validators
 // (typha/pkg/validator/v1, libcalico-go/lib/validator/v3 and the two workload-endpoint rules of the
@@ -34,6 +37,8 @@ import (
 	"sort"
 	"strings"
 	"time"
+
+	googleproto "google.golang.org/protobuf/proto"
 
 	"github.com/projectcalico/calico/felix/proto"
 	"github.com/projectcalico/calico/libcalico-go/lib/backend/model"
@@ -140,7 +145,7 @@ func failClosed(c *harness.Case, u *calcgen.Universe, s calcgen.State, sh *shado
 func run(c *harness.Case) {
 	size := calcgen.Size{ProfileChurn: true, Extra: c.Thorough() && c.Index%2 == 0}
 	sc := calcgen.NewScenario(c.R, calcgen.ScenarioOptions{Size: size, MinSteps: 30, MaxSteps: c.Pick(120, 200),
-		History: calcgen.HistoryOptions{Focus: []string{calcgen.ClassProfileRules, calcgen.ClassProfileRules, calcgen.ClassWEP, calcgen.ClassHEP, calcgen.ClassPolicy, calcgen.ClassProfileLabels, calcgen.ClassNetSet}}})
+		History: calcgen.HistoryOptions{FlapPercent: 12, Focus: []string{calcgen.ClassProfileRules, calcgen.ClassProfileRules, calcgen.ClassWEP, calcgen.ClassHEP, calcgen.ClassPolicy, calcgen.ClassProfileLabels, calcgen.ClassNetSet}}})
 	if err := sc.U.SelfCheck(); err != nil {
 		calcgen.Debugf("case %d: %v", c.Index, err)
 		c.Inconclusive("generator-tag-mismatch")
@@ -210,6 +215,26 @@ func run(c *harness.Case) {
 		c.Violationf(key, w, "a fresh graph treats an invalid value differently from absence: %s", e.Text)
 	}
 
+	// The profiles the dataplane holds at the end must be the ones a fresh graph emits for the final
+	// state without its invalid values (deny stand-in where the rules are absent/invalid, the real
+	// rules, ids included, where they are valid).
+	for name, p := range shA.State.Profiles {
+		fp, ok := fS2.Shadow.State.Profiles[name]
+		if !ok {
+			continue
+		}
+		c.Count("final_profile_comparisons", 1)
+		if !googleproto.Equal(p, fp) && !reported["profile-rules-differ-from-fresh"] {
+			reported["profile-rules-differ-from-fresh"] = true
+			w := sc.Witness()
+			w["profile"] = name
+			w["after_history"] = fmt.Sprint(p)
+			w["fresh"] = fmt.Sprint(fp)
+			c.Violationf("profile-rules-differ-from-fresh", w, "profile %q: the dataplane holds %v after the history but a fresh graph fed the final state emits %v", name, p, fp)
+		}
+	}
+	c.Count("batches_profile-flap", int64(sc.H.Distortions["profile-flap"]))
+
 	if nInvalid > 0 && sawMissing {
 		c.NonTrivial(shA.State.Summary(), fmt.Sprint(sc.H.Final))
 	}
@@ -238,7 +263,7 @@ func main() {
 		},
 		Run: run,
 		Floors: map[string]int64{"histories": 40, "flushes_compared": 400, "invalid_values_delivered": 300, "missing_profile_judgements": 500,
-			"real_profile_judgements": 150, "fresh_comparisons": 30},
+			"real_profile_judgements": 150, "fresh_comparisons": 30, "batches_profile-flap": 100, "final_profile_comparisons": 50},
 		CaseTimeout: 180 * time.Second,
 	})
 }
